@@ -258,6 +258,58 @@ func runC14(args []string) int {
 		}
 		r.Traces++
 	}
+	// --- very large single pieces (0.25 .. 8 MB, odd and even lengths, lengths that are and are not multiples of
+	// 8 and of the block sizes a parallel or word-at-a-time implementation would use): one Write and the one-shot
+	// Checksum against the same bytes fed in pieces of at most 4 kB (the path compared with the model above) and
+	// against a bit-at-a-time CRC-16/ARC computed here; too large to send through the model co-process
+	bigSizes := []int{262143, 262144, 262145, 300000, 300001, 524287, 524288, 524289, 1000003, 1 << 20, 1<<20 + 1}
+	if o.tier == "thorough" || o.boost > 1 {
+		bigSizes = append(bigSizes, 1<<21+1, 1<<22, 1<<22+3, 1<<23+5, 3*(1<<20)+7)
+	}
+	for k := 0; k < 4; k++ {
+		bigSizes = append(bigSizes, 250000+rg.intn(900000))
+	}
+	for _, n := range bigSizes {
+		data := rg.bytes(n)
+		ref := uint16(0)
+		for _, b := range data {
+			ref ^= uint16(b)
+			for j := 0; j < 8; j++ {
+				if ref&1 != 0 {
+					ref = ref>>1 ^ 0xA001
+				} else {
+					ref >>= 1
+				}
+			}
+		}
+		whole := dyncrc16.Checksum(data)
+		h1 := dyncrc16.New()
+		h1.Write(data)
+		hp := dyncrc16.New()
+		for rest := data; len(rest) > 0; {
+			m := 1 + rg.intn(4096)
+			if m > len(rest) {
+				m = len(rest)
+			}
+			hp.Write(rest[:m])
+			rest = rest[m:]
+		}
+		residue := dyncrc16.Checksum(append(append([]byte{}, data...), byte(whole), byte(whole>>8)))
+		rep := map[string]interface{}{"entry": "dyncrc16.Checksum / Write of one large piece", "length": n, "data_first_32_hex": hexs(data[:32]), "data_is": "pseudo-random bytes; any content of this length shows the difference",
+			"checksum": whole, "single_write": h1.Sum16(), "pieces_up_to_4096": hp.Sum16(), "crc16_arc": ref}
+		r.count(fmt.Sprintf("big%d|%x", n, data[:16]), true)
+		r.hist("large_single_pieces")
+		if whole != ref {
+			r.specFail("checksum", fmt.Sprintf("Checksum of %d bytes = 0x%04x, CRC-16/ARC is 0x%04x", n, whole, ref), rep)
+		}
+		if h1.Sum16() != hp.Sum16() || h1.Sum16() != ref {
+			r.specFail("partition", fmt.Sprintf("one Write of %d bytes sums to 0x%04x, the same bytes in pieces of at most 4096 give 0x%04x (CRC-16/ARC 0x%04x)", n, h1.Sum16(), hp.Sum16(), ref), rep)
+		}
+		if residue != 0 {
+			r.specFail("residue", fmt.Sprintf("Checksum(data ++ le(sum)) = 0x%04x for %d bytes of data, expected 0", residue, n), rep)
+		}
+		r.Traces++
+	}
 	return r.finish()
 }
 
